@@ -353,3 +353,85 @@ Definition abs_vars (s : state) : list (option value) := map (abs_top (hp s)) (v
 
 (* heap accounting for the "freed exactly once, nothing leaks" observation *)
 Definition live_blocks (H : heap) : nat := length (filter (fun b => negb (rc b =? 0)%nat) H).
+
+(* a whole history: the state after the last operation (None = some operation failed: a handle to a
+   released block was followed, or the recursion fuel of the ghost depths did not suffice) *)
+Fixpoint mrun (s : state) (l : list op) : option state :=
+  match l with
+  | [] => Some s
+  | o :: t => match mstep s o with Some (s', _) => mrun s' t | None => None end
+  end.
+
+(* ~Variant() of every variable *)
+Definition destroy_all (s : state) : option heap := release_all (vars s) (hp s).
+
+(* ---- the const observers of the code, on the representation --------------------------------
+   getType and the to* accessors switch on the type tag and read the inline scalar or the String
+   payload; they never look inside a container.  [shallow] is exactly what they read. *)
+Definition shallow (H : heap) (h : handle) : value :=
+  match h with
+  | HS s => VS s
+  | HB b => match lookup H b with
+            | Some (PStr s) => VStr s
+            | Some (PNode k _ _) => VNode k [] []
+            | None => VNull
+            end
+  end.
+
+Definition m_type (H : heap) (h : handle) : Z := vtype (shallow H h).
+Definition m_to_bool (H : heap) (h : handle) : bool := to_bool (shallow H h).
+Definition m_to_int (H : heap) (h : handle) : option Z := to_int (shallow H h).
+Definition m_to_uint (H : heap) (h : handle) : option Z := to_uint (shallow H h).
+Definition m_to_i64 (H : heap) (h : handle) : option Z := to_i64 (shallow H h).
+Definition m_to_u64 (H : heap) (h : handle) : option Z := to_u64 (shallow H h).
+Definition m_to_dbl (H : heap) (h : handle) : Z * Z := to_dbl (shallow H h).
+Definition m_to_str (H : heap) (h : handle) : bytes := to_str (shallow H h).
+
+(* Variant::operator== on the representation: the left operand's tag decides; containers are
+   compared element by element (HashMap/List/Array operator==, keys first for maps), through the
+   handles, whatever blocks they happen to share *)
+Fixpoint meq (fuel : nat) (H : heap) (a b : handle) {struct fuel} : option bool :=
+  match fuel with
+  | O => None
+  | S f =>
+      match a with
+      | HS s => eq_scalar_lhs s (shallow H b)
+      | HB ba =>
+          match lookup H ba with
+          | None => None
+          | Some (PStr s) =>
+              match shallow H b with
+              | VStr s' => Some (bytes_eqb s s')
+              | VS sb => eq_scalar_lhs sb (VStr s)
+              | VNode _ _ _ => Some false
+              end
+          | Some (PNode k ks hs) =>
+              match b with
+              | HS _ => Some false
+              | HB bb =>
+                  match lookup H bb with
+                  | Some (PNode k' ks' hs') =>
+                      if kind_eqb k k' then
+                        if (length hs =? length hs')%nat then
+                          (fix go (ks ks' : list bytes) (l l' : list handle) {struct l} : option bool :=
+                             match l, l' with
+                             | x :: xs, y :: ys =>
+                                 let kd := match ks, ks' with k1 :: _, k2 :: _ => negb (bytes_eqb k1 k2) | _, _ => false end in
+                                 if kd then Some false else
+                                 match meq f H x y with
+                                 | Some true => go (tl ks) (tl ks') xs ys
+                                 | r => r
+                                 end
+                             | _, _ => Some true
+                             end) ks ks' hs hs'
+                        else Some false
+                      else Some false
+                  | Some (PStr _) => Some false
+                  | None => None
+                  end
+              end
+          end
+      end
+  end.
+
+Definition meq_top (H : heap) (a b : handle) : option bool := meq (S (hdepth H a)) H a b.
